@@ -20,3 +20,5 @@ EXPLANATION = ('Bounded: every string of one or two fragments from a fragment al
 LEVEL_TEXT = EXPLANATION
 TECHNIQUE = 'bounded evaluation of the exception-effect contract of compile(); VC-proved leaf (util.lower)'
 MUSTFAIL = False
+
+FUNCTIONS = FUNCTIONS + ['soupsieve.css_parser.css_unescape.replace@esc', 'soupsieve.css_parser.css_unescape.replace@stresc', 'soupsieve.css_parser.css_unescape']
